@@ -265,6 +265,48 @@ Fixpoint feed_all (c : cfg) (rd : reader) (segs : list bytes) : list msg * reade
     (e1 ++ e2, rd2)
   end.
 
+(* ---- WebSocketDataQueue as the application sees it: feed_data appends, set_exception stores the error without
+   touching the buffer, _read_from_buffer (what `await queue.read()` returns when it does not have to wait) hands out
+   buffered messages first and raises the stored exception only once the buffer is empty. *)
+Record wsqueue := mkq { q_buf : list msg; q_exc : option werr }.
+Definition q0 : wsqueue := mkq [] None.
+
+Inductive qres := QMsg (m : msg) (q : wsqueue) | QErr (e : werr) | QWait.
+
+Definition q_read (q : wsqueue) : qres :=
+  match q_buf q with
+  | m :: r => QMsg m (mkq r (q_exc q))
+  | [] => match q_exc q with Some e => QErr e | None => QWait end
+  end.
+
+(* one network read followed by what feed_data does to the queue *)
+Definition q_after_feed (q : wsqueue) (evs : list msg) (rd' : reader) : wsqueue :=
+  mkq (q_buf q ++ evs) (match rd' with Latched e => Some e | _ => q_exc q end).
+
+(* an application: any interleaving of network reads and (non-blocking) queue reads *)
+Inductive appop := OFeed (d : bytes) | ORead.
+
+Record appstate := mka { a_rd : reader; a_q : wsqueue; a_got : list msg; a_err : option werr }.
+
+Definition app_step (c : cfg) (a : appstate) (o : appop) : appstate :=
+  match o with
+  | OFeed d => let '(evs, rd') := feed c (a_rd a) d in mka rd' (q_after_feed (a_q a) evs rd') (a_got a) (a_err a)
+  | ORead =>
+    match q_read (a_q a) with
+    | QMsg m q' => mka (a_rd a) q' (a_got a ++ [m]) (a_err a)
+    | QErr e => mka (a_rd a) (a_q a) (a_got a) (Some e)
+    | QWait => a
+    end
+  end.
+
+Definition app_run (c : cfg) (a : appstate) (ops : list appop) : appstate := fold_left (app_step c) ops a.
+
+Fixpoint feeds_of (ops : list appop) : list bytes :=
+  match ops with [] => [] | OFeed d :: r => d :: feeds_of r | ORead :: r => feeds_of r end.
+
+(* everything the application has read plus everything it can still read without waiting, and the error it then gets *)
+Definition app_observe (a : appstate) : list msg * option werr := (a_got a ++ q_buf (a_q a), q_exc (a_q a)).
+
 (* bytes retained between calls for the frame / message in progress *)
 Definition retained (s : rstate) : N := lenN (m_partial (s_m s)) + lenN (s_frags s) + lenN (s_tail s).
 
@@ -284,6 +326,7 @@ Arguments s_fop {Cx}. Arguments s_frags {Cx}. Arguments s_nfrags {Cx}. Arguments
 Arguments s_mask {Cx}. Arguments s_toread {Cx}. Arguments s_lflag {Cx}. Arguments s_comp {Cx}.
 Arguments PNeed {Cx}. Arguments PFail {Cx}. Arguments PGo {Cx}. Arguments PDone {Cx}.
 Arguments Live {Cx}. Arguments Latched {Cx}. Arguments Fuel {Cx}.
+Arguments mka {Cx}. Arguments a_rd {Cx}. Arguments a_q {Cx}. Arguments a_got {Cx}. Arguments a_err {Cx}.
 
 (* ---------------------------------------------------------------------------------------------
    Toy codec (instantiates the Section so that every theorem is non-vacuous and the model runs).
